@@ -50,11 +50,9 @@ def tasks_exhaustive(ctx):
                 t.append((H.Opts(sp, loop="mirror", fail=99, vis=vis), 0, 2))
     if ctx.thorough:
         for sp in SMALL:
-            for loop in ("mirror", "real"):
-                t.append((H.Opts(sp, loop=loop, fail=99, vis=(0, INF), multi=True), 0, 2))
+            t.append((H.Opts(sp, loop="real", fail=99, vis=(0, INF), multi=True), 0, 2))
         for sp in DELAY1:
-            for loop in ("mirror", "real"):
-                t.append((H.Opts(sp, loop=loop, fail=99, vis=(0, 1, INF)), 0, 2))
+            t.append((H.Opts(sp, loop="real", fail=99, vis=(0, 1, INF)), 0, 2))
         for sp in MEDIUM_QUICK:
             t.append((H.Opts(sp, loop="real", fail=99, vis=(0, INF)), 0, 3))
         for sp in LARGE_EXH:
@@ -64,7 +62,7 @@ def tasks_exhaustive(ctx):
 
 
 def tasks_sampled(ctx):
-    n = ctx.pick(12, 300)
+    n = ctx.pick(12, 200)
     t = []
     for sp in SAMPLED:
         for loop in ("mirror", "real"):
@@ -96,7 +94,7 @@ def run(ctx):
                 + f"; the same with has_errored/all_failed/done read on every node after every observation for {SMALL if ctx.thorough else PROBED}; "
                 f"workflows {MEDIUM if ctx.thorough else MEDIUM_QUICK} (4-6 jobs): every order x every failing subset with lock visibility all-seen / none-seen"
                 + (
-                    f"; several completions between two observations for {SMALL}; visibility delay in {{0, 1, never}} for {DELAY1}; per-job visibility for {MEDIUM_QUICK}; {LARGE_EXH} with <= 1 failing job and visibility all-seen / none-seen"
+                    f"; real loop with several completions between two observations for {SMALL} and with visibility delay in {{0, 1, never}} for {DELAY1}; per-job visibility for {MEDIUM_QUICK}; {LARGE_EXH} with <= 1 failing job and visibility all-seen / none-seen"
                     if ctx.thorough
                     else ""
                 )
@@ -106,7 +104,7 @@ def run(ctx):
         )
         dom2 = ctx.domain(
             "failing-subsets x completion-orders (sampled, larger workflows)",
-            bound=f"workflows {SAMPLED} (4-10 jobs), random scripts: any failing subset, visibility delay in {{0,1,never}}, several completions per observation; {ctx.pick(12, 300)} scripts per workflow and loop, seed {ctx.seed}",
+            bound=f"workflows {SAMPLED} (4-10 jobs), random scripts: any failing subset, visibility delay in {{0,1,never}}, several completions per observation; {ctx.pick(12, 200)} scripts per workflow and loop, seed {ctx.seed}",
             rule="one case = one random script; distinct by choice list; non-trivial = at least one job fails",
             exhaustive=False,
         )
